@@ -156,7 +156,9 @@ def rule_a(ctx, cr):
         # letters passed to string APIs
         api = {}
         for c in f.calls():
-            for a in c.args[1:]:
+            # the pattern operand only: what `replace` writes INTO the text is not a test of it
+            pats = c.args[1:2] if re.search(r"::replacen?$", c.callee or "") else c.args[1:]
+            for a in pats:
                 cv = f.const_of_operand(a)
                 if isinstance(cv, str) and len(cv) == 1 and cv.isascii() and cv.isalpha():
                     recv = f.describe(c.args[0]) if c.args else ""
@@ -188,7 +190,9 @@ def rule_a(ctx, cr):
                           "%s is applied with both letter cases" % meth,
                           "%s(%r) has no counterpart for %r: the two letter cases of the same "
                           "text are treated differently" % (meth, ch, swap(ch)))
-    ctx.floor("C16.a", "letter comparisons examined", n_letters, 14)
+    # 14 on the pinned tree; four of them are the D/d/E/e patterns of Val::from's text rewriting,
+    # which can be written as one char-array pattern without changing behaviour
+    ctx.floor("C16.a", "letter comparisons examined", n_letters, 10)
 
 
 def _root_local(f, o):
@@ -220,6 +224,16 @@ def rule_bc(ctx, cr):
     ctx.touch("lang::lex::BasicLexer::collapse_triples", "lang::lex::BasicLexer::collapse_doubles")
     ctx.floor("C16.b", "collapse_triples rows", len(tri), 8)
     ctx.floor("C16.b", "collapse_doubles rows", len(dbl), 5)
+    # the rows are applied where they were found: positions are recorded in ONE pass (ascending)
+    # and replaced from the back, so an earlier replacement cannot shift a later one
+    from rules import panics
+    for nm in ("collapse_triples", "collapse_doubles"):
+        f = cr.need_fn("lang::lex::BasicLexer::" + nm)
+        if f.calls_matching(r"Vec::<T, A>::pop$") and f.calls_matching(r"Vec::<T, A>::push$"):
+            ok, text = panics.verify_guard(f, None, {"guard": {"recorded_in_one_loop": True}})
+            ctx.check(ok, "C16.b", "%s/positions-recorded-in-one-pass" % nm, f.span, text,
+                      "%s: %s - a line with both kinds of spelling (GO TO before `< =`) is "
+                      "rewritten at the wrong tokens" % (nm, text))
     rel3 = {}
     go = []
     for pat, res in tri:
